@@ -377,7 +377,8 @@ func genCase(t *rapid.T) Case {
 			case 0:
 				chunk = uint32(rapid.IntRange(1, 300).Draw(t, "css"))
 			case 1:
-				chunk = rapid.SampledFrom([]uint32{1, 2, 127, 128, 129, 4096, 65536, 1<<31 - 1}).Draw(t, "csc")
+				// incl. sizes above 2^24 whose low bytes are small (a size is 31 bits, not 24)
+				chunk = rapid.SampledFrom([]uint32{1, 2, 127, 128, 129, 4096, 65536, 1<<31 - 1, 1 << 24, 1<<24 - 1, 1<<24 + 1, 1<<24 + 128, 1<<16 + 1, 1<<30 + 64, 0x7f000010}).Draw(t, "csc")
 			default:
 				chunk = uint32(rapid.Uint64Range(1, 1<<31-1).Draw(t, "csu"))
 			}
